@@ -156,7 +156,7 @@ def _check_argfn(acc, fn, shape, vals, axis, nseeds, seed0):
     reached = [set() for _ in ties]
 
     def run(tp):
-        rng = T.TapeRNG(0, tp)
+        rng = T.TapeRNG(0, tp, scripted=("uniform", "choice"))
         return f(a.copy(), random_state=rng, **kw)
 
     nexec = 0
@@ -201,7 +201,7 @@ def _check_argfn(acc, fn, shape, vals, axis, nseeds, seed0):
             perm = tuple(int(x) for x in np.argsort(np.argsort(o1.last.ravel())))
             perms = T._orderings(n)
             tp = T.Tape([perms.index(perm)])
-            r4 = f(a.copy(), random_state=T.TapeRNG(0, tp), **kw)
+            r4 = f(a.copy(), random_state=T.TapeRNG(0, tp, scripted=("uniform", "choice")), **kw)
             acc.traces_validated += 1
             if not np.array_equal(r1, r4):
                 acc.engine_error("C18 conformance: seed %d ordering %s real %s model %s for %s" % (s, perm, r1, r4, wit))
@@ -280,7 +280,7 @@ def _check_batch(acc, method, shape, vals, bs, nseeds, seed0):
     def run(tp):
         if method == "max":
             return call(np.random.RandomState(0), tp, "substitute")
-        return call(T.TapeRNG(0, tp), None, None)
+        return call(T.TapeRNG(0, tp, scripted=("uniform", "choice")), None, None)
 
     bound = 2 if method == "max" else 8
     for tp, res in T.explore(run, bound=bound, max_runs=5000):
